@@ -30,7 +30,8 @@ def _run(ev, work, thorough, pid):
     mine = pid
     inv = ["PruneSound"] if pid == "C05" else ["RowFilterExact"]
     # ---- 1. design level ----
-    for rgs, progs in (("RGsSingle3" if thorough else "RGsSingle2", "ProgsSingle"), ("RGsPair2" if thorough else "RGsPairQ", "ProgsPair")):
+    for rgs, progs in (("RGsSingle3" if thorough else "RGsSingle2", "ProgsSingle"), ("RGsPair2" if thorough else "RGsPairQ", "ProgsPair"),
+                       ("RGsPairCols", "ProgsPair")):
         res = F.model_check(work, rgs, progs, F.VARIANT_REPAIRED, inv, "ok-" + progs)
         if not res.ok:
             print(res.out[-3000:])
@@ -79,7 +80,8 @@ def _run(ev, work, thorough, pid):
     for rgs, progs, classes, zero, masked in (("RGsSingle2", "ProgsSingle", ["int"], False, True),
                                               ("RGsSingle2", "ProgsSingle", ["float", "ts"], False, False),
                                               ("RGsSingle2", "ProgsSingle", ["str"], True, True),
-                                              ("RGsPair2" if thorough else "RGsPairQ", "ProgsPair", ["int"], False, True)):
+                                              ("RGsPair2" if thorough else "RGsPairQ", "ProgsPair", ["int"], False, True),
+                                              ("RGsPairCols", "ProgsPair", ["int"], False, True)):
         pool, cases, res = F.export(work, rgs, progs, dict(F.VARIANT_CURRENT, ZeroIsEmpty=zero, MaskedNulls=masked),
                                     progs + str(zero) + str(masked))
         ev.add_tlc("FiltersExport %s x %s: contract verdicts and mechanism predictions" % (rgs, progs), res,
